@@ -304,3 +304,106 @@ func runC08(o *Out, rng *Rng, tier string, replay string) {
 	}
 	engFlush(o, "C08")
 }
+
+// genC02Kept: the moments around a kept promise's clearance second.  A promised trip is flown and
+// kept while the balance stays negative and the clearance date lies days ahead; then either
+// (a) the traveller checks in the evening before the clearance day for a flight departing after it
+//     (must be refused: the decision is made at the moment of the check-in), and again on the
+//     clearance day (must be accepted), or
+// (b) a further trip is promised that starts before the kept promise's clearance date (stacking pulls
+//     the clearance forward to that trip's start): its check-in, before the old clearance date, must
+//     be accepted.
+func genC02Kept(rng *Rng, workdir string, proj string) *engSession {
+	s := newEngSession(workdir, proj)
+	var p flap.FlapParams
+	p.TripLength = flap.Days(rng.Range(6, 12))
+	p.FlightsInTrip = 6
+	p.FlightInterval = 1
+	p.DailyTotal = flap.Kilometres(400 + 600*rng.F01())
+	p.MinGrounded = 1
+	p.Promises.Algo = flap.PromisesAlgo(1 + rng.Intn(2))
+	p.Promises.MaxPoints = uint32(rng.Range(4, 10))
+	p.Promises.MaxDays = flap.Days(rng.Range(40, 60))
+	p.Promises.MaxStackSize = flap.StackIndex(rng.Range(1, 3))
+	p.Promises.SmoothWindow = flap.Days(rng.Range(0, 2))
+	p.Promises.Degree = 1
+	p.Threads = 1
+	s.setParams(p)
+	used := map[string]bool{}
+	s.addTraveller(passportWithPrefix(rng, -1, used))
+	day := uint64(rng.Range(17500, 19500))
+	leg := func(d uint64, sec uint64, a, b int, dist float64) flap.VerifFlight {
+		st := d*86400 + sec
+		return flap.VerifFlight{Start: flap.EpochTime(st), End: flap.EpochTime(st + 4000), From: icaoOf(a), To: icaoOf(b), Distance: flap.Kilometres(dist)}
+	}
+	for k := 0; k < rng.Range(4, 7); k++ {
+		s.update(day * 86400)
+		day++
+	}
+	dA := 3000 + 6000*rng.F01() // several days of backfill
+	out, back := leg(day+1, 30000, 1, 2, dA/2), leg(day+2, 30000, 2, 1, dA/2)
+	s.update(day * 86400)
+	code, slot := s.propose(0, []flap.VerifFlight{back, out}, 0, day*86400+10)
+	if code != 0 || s.make(0, slot, day*86400+20, s.props[slot].VerifVersion()) != 0 {
+		return s
+	}
+	day++
+	s.update(day * 86400)
+	s.submit(0, []flap.VerifFlight{out}, uint64(out.Start), true)
+	day++
+	s.update(day * 86400)
+	s.submit(0, []flap.VerifFlight{back}, uint64(back.Start)-100, true)
+	day++
+	s.update(day * 86400) // keeps the promise
+	t, _ := s.get(0)
+	if t.Kept.TripStart == 0 || midTripOf(&t) {
+		return s
+	}
+	clr := uint64(t.Kept.Clearance)
+	if c, err := t.Promises.VerifMatch(t.Kept); err == nil {
+		clr = uint64(c)
+	}
+	if clr < (day+2)*86400 {
+		return s
+	}
+	if rng.Bool() {
+		// (a) live up to the eve of the clearance day, check in for a flight after the clearance second
+		for (day+1)*86400 < clr {
+			day++
+			s.update(day * 86400)
+		}
+		tb, _ := s.get(0)
+		if tb.Balance >= 0 {
+			return s
+		}
+		eve := clr - uint64(rng.Range(1, 30000))
+		f := leg(clr/86400, uint64(rng.Range(0, 30000)), 1, 3, 300+500*rng.F01())
+		s.stat["c02_evening_before_clearance"]++
+		if s.submit(0, []flap.VerifFlight{f}, eve, true) != 0 {
+			// properly refused; on the clearance day itself the same flight is accepted
+			day++
+			s.update(day * 86400)
+			s.submit(0, []flap.VerifFlight{f}, clr+uint64(rng.Intn(100)), true)
+		}
+	} else {
+		// (b) a further promised trip that starts before the kept promise's clearance date
+		sd := day + 1 + uint64(rng.Intn(int(clr/86400-day)))
+		if sd > clr/86400 {
+			sd = clr / 86400
+		}
+		f := leg(sd, uint64(rng.Range(1000, 60000)), 1, 3, 200+300*rng.F01())
+		c, sl := s.propose(0, []flap.VerifFlight{f}, 0, day*86400+100)
+		if c != 0 || s.make(0, sl, day*86400+200, s.props[sl].VerifVersion()) != 0 {
+			return s
+		}
+		s.stat["c02_trip_stacked_on_kept_promise"]++
+		for day < sd {
+			day++
+			s.update(day * 86400)
+		}
+		s.submit(0, []flap.VerifFlight{f}, uint64(f.Start), true)
+	}
+	day++
+	s.update(day * 86400)
+	return s
+}
